@@ -40,6 +40,11 @@
 //   step <k> | before | g | curv or - [| subset (randomised)] -> <subset used> | image after update_estimate
 //   endit <k> | image after update_estimate                   -> image after end_of_iteration_processing (only with filters)
 //   rerun <start> <numsubiter>                                -> ok   (reconstruct() again WITHOUT set_up)
+//   recfg …                                                   -> ok   (the SAME reconstruction object configured anew: like cfg, but the
+//                                                                      model's object keeps the stored denominator of the previous run)
+//   resetup / resetupf …                                      -> as setup / setupf: set_up(target) on the object that was run before
+//   pardefaults                                               -> enforce_initial_positivity, upper bound, alpha, gamma as a parameter file
+//                                                                that does not mention them leaves them (the model then uses its defaults)
 //   endrun                                                    -> number of update_estimate calls of the run
 // Property oracle (<impl>.oracle): bounds (after update_estimate; after bound preserving filters), D0 >= 0, equal to -H(1) and to the
 // sum over the bins of the objective function, gradient equal to its definition with normalisation / TOF / zeroed end planes, ascent
@@ -47,6 +52,15 @@
 // order: a permutation per full iteration; resume from every saved iterate with a fresh object (recomputed denominator, denominator
 // from the saved file): later iterates bitwise equal; saved files equal the in-memory iterates; denominator files that do not match
 // the image refused.
+//
+// Object re-use histories (run_history): ONE reconstruction / objective function / prior object, 2-3 consecutive set_up + reconstruct
+// runs with changes in between (data, additive term, normalisation, subsets, relaxation, prior factor / object, start image,
+// `precomputed denominator` mode, restart from a saved iterate; continuation of an interrupted run on the same object); every run is
+// described to the model in full (recfg + rows), checked by all single-run oracle clauses with D0 of the CURRENT data, and compared
+// bitwise with a fresh object configured identically (and, for continuations, with the uninterrupted run).
+// Parameter files (Case::par): the objects are made by OSSPSReconstruction::initialise(<file the harness wrote>), the start image
+// by get_initial_data_ptr(); one configuration leaves every OSSPS key to the parser's defaults, one writes them all; compared with the
+// model and bitwise with the same configuration made through the setters.
 //
 // Usage: c08_ossps <seed> <quick|thorough> <opsfile> <implfile>
 #include "common.h"
@@ -62,6 +76,7 @@
 #include "stir/recon_buildblock/find_basic_vs_nums_in_subsets.h"
 #include "stir/DataSymmetriesForViewSegmentNumbers.h"
 #include "stir/ProjDataInMemory.h"
+#include "stir/ProjDataInterfile.h"
 #include "stir/DiscretisedDensity.h"
 #include "stir/ExamInfo.h"
 #include "stir/Bin.h"
@@ -75,6 +90,8 @@
 #include <array>
 #include <cmath>
 #include <cstring>
+#include <fstream>
+#include <stdexcept>
 #include <map>
 #include <set>
 #include <limits>
@@ -178,6 +195,22 @@ struct Probe : public OSSPSReconstruction<T>
   int default_ep() const { return this->enforce_initial_positivity; }
   void use_denominator_of_ones() { this->precomputed_denominator_filename = "1"; }
   void use_denominator_file(const std::string& f) { this->precomputed_denominator_filename = f; }
+  void use_denominator_computed() { this->precomputed_denominator_filename = ""; }
+  // the users' path: set_defaults() + parse(parameter file), as OSSPSReconstruction(parameter_filename) does
+  void init_from_par(const std::string& f) { this->initialise(f); }
+  // what the no-argument reconstruct() starts from (`initial estimate`)
+  shared_ptr<T> initial() const { return shared_ptr<T>(this->get_initial_data_ptr()); }
+  std::string parsed_line() const
+  {
+    return std::to_string(this->enforce_initial_positivity) + " " + vh::hex(static_cast<float>(this->upper_bound)) + " "
+           + vh::hex(this->relaxation_parameter) + " " + vh::hex(this->relaxation_gamma);
+  }
+  bool no_filters() const
+  {
+    return is_null_ptr(this->inter_iteration_filter_ptr) && this->inter_iteration_filter_interval == 0 && is_null_ptr(this->post_filter_sptr);
+  }
+  int parsed_write_update() const { return this->write_update_image; }
+  void set_write_update(int w) { this->write_update_image = w; }
   // image after end_of_iteration_processing (inter-iteration / post filter applied) of every sub-iteration
   std::vector<V> finals;
   void end_of_iteration_processing(T& cur) override
@@ -319,6 +352,11 @@ struct Case
   int filt = 0;             // inter-iteration filter: 0 none, 1 smoothing {1/4,1/2,1/4} in x and y, 2 sharpening {-1/8,5/4,-1/8} in x and y
   int filt_interval = 0;    // inter-iteration filter subiteration interval
   int postfilt = 0;         // post filter, same kinds
+  // --- how the objects are made: 0 setters; 1 parameter file with every key written; 2 parameter file that leaves the OSSPS keys
+  //     (relaxation parameter, relaxation gamma, upper bound, enforce initial positivity condition, write update image, filters,
+  //     start at subset) to the parser's defaults
+  int par = 0;
+  bool write_update = false; // `write update image := 1`
   uint64_t data_seed = 1;
   std::string prefix;
 };
@@ -333,6 +371,7 @@ struct Built
   shared_ptr<T> kappa;
   Array<3, float> weights;
   V init;
+  mutable std::string file_prefix; // data written to disk (parameter-file runs)
 };
 
 static void
@@ -568,6 +607,9 @@ struct Engine
   shared_ptr<RecObj> obj;
   shared_ptr<RecPrior> qprior;
   shared_ptr<Probe> rec;
+  // the objective function / quadratic prior actually in use (the recording subclasses above, or what the parser made)
+  PoissonLogLikelihoodWithLinearModelForMeanAndProjData<T>* pl = nullptr;
+  QuadraticPrior<float>* qp = nullptr;
 };
 
 // the filter kinds of Case::filt / Case::postfilt: a real SeparableConvolutionImageFilter, 3 taps in y and in x, none in z
@@ -597,10 +639,125 @@ make_filter(int kind)
   return shared_ptr<DataProcessor<T>>(new SeparableConvolutionImageFilter<float>(k));
 }
 
+// ---------------------------------------------------------------------------------------------- parameter files
+static std::string
+fmt_float(float x)
+{
+  char buf[64];
+  std::snprintf(buf, sizeof buf, "%.9g", static_cast<double>(x));
+  return buf;
+}
+static std::string
+fmt_double(double x)
+{
+  char buf[64];
+  std::snprintf(buf, sizeof buf, "%.17g", x);
+  return buf;
+}
+static int g_file_counter = 0;
+static std::string g_dir;
+
+static void
+write_projdata(const ProjDataInMemory& pd, const std::string& name)
+{
+  ProjDataInterfile out(pd.get_exam_info_sptr(), pd.get_proj_data_info_sptr(), name);
+  out.fill(pd);
+}
+
+// writes <prefix>.par: the file a user would write for this configuration.  `initfile`: `initial estimate`, `dfile`:
+// `precomputed denominator` ("" = not mentioned, "1" = ones)
+static std::string
+write_par(const Case& c, const Built& b, int start, int ep, const std::string& prefix, const std::string& dfile, const std::string& initfile)
+{
+  if (b.file_prefix.empty())
+    b.file_prefix = g_dir + "/data" + std::to_string(g_file_counter++);
+  // (the data of a Built may be replaced in the course of a history: always write what is current)
+  const std::string dp = b.file_prefix + "_" + std::to_string(g_file_counter++);
+  write_projdata(*b.y, dp + "_y.hs");
+  if (c.additive)
+    write_projdata(*b.a, dp + "_a.hs");
+  if (c.norm)
+    write_projdata(*b.normdata, dp + "_n.hs");
+  if (c.prior == 1 && c.kappa)
+    write_to_file(dp + "_kappa", *b.kappa);
+  const std::string fname = prefix + ".par";
+  std::ofstream f(fname.c_str());
+  f << "OSSPSParameters :=\n"
+    << "objective function type := PoissonLogLikelihoodWithLinearModelForMeanAndProjData\n"
+    << "PoissonLogLikelihoodWithLinearModelForMeanAndProjData Parameters :=\n"
+    << "  input file := " << dp << "_y.hs\n"
+    << "  zero end planes of segment 0 := " << (c.zero_ends ? 1 : 0) << "\n"
+    << "  projector pair type := Matrix\n"
+    << "    Projector Pair Using Matrix Parameters :=\n"
+    << "      Matrix type := Ray Tracing\n"
+    << "        Ray Tracing Matrix Parameters :=\n"
+    << "          restrict to cylindrical FOV := " << (c.restrict_fov ? 1 : 0) << "\n"
+    << "          do_symmetry_90degrees_min_phi := " << (c.sym90 ? 1 : 0) << "\n"
+    << "          do_symmetry_180degrees_min_phi := " << (c.sym180 ? 1 : 0) << "\n"
+    << "          do_symmetry_swap_segment := " << (c.symswapseg ? 1 : 0) << "\n"
+    << "          do_symmetry_swap_s := " << (c.symswaps ? 1 : 0) << "\n"
+    << "          do_symmetry_shift_z := " << (c.symz ? 1 : 0) << "\n"
+    << "        End Ray Tracing Matrix Parameters :=\n"
+    << "    End Projector Pair Using Matrix Parameters :=\n";
+  if (c.additive)
+    f << "  additive sinogram := " << dp << "_a.hs\n";
+  if (c.norm)
+    f << "  Bin Normalisation type := From ProjData\n"
+      << "    Bin Normalisation From ProjData :=\n"
+      << "      normalisation_projdata_filename := " << dp << "_n.hs\n"
+      << "    End Bin Normalisation From ProjData :=\n";
+  if (c.prior == 1)
+    {
+      f << "  prior type := Quadratic\n"
+        << "    Quadratic Prior Parameters :=\n"
+        << "      penalisation factor := " << fmt_float(c.beta) << "\n"
+        << "      only 2D := " << (c.weights_kind == 1 ? 1 : 0) << "\n";
+      if (c.kappa)
+        f << "      kappa filename := " << dp << "_kappa.hv\n";
+      f << "    END Quadratic Prior Parameters :=\n";
+    }
+  f << "  use_subset_sensitivities := " << (c.subset_sens ? 1 : 0) << "\n"
+    << "End PoissonLogLikelihoodWithLinearModelForMeanAndProjData Parameters :=\n"
+    << "initial estimate := " << initfile << "\n"
+    << "output filename prefix := " << prefix << "\n"
+    << "number of subsets := " << c.nsub << "\n"
+    << "number of subiterations := " << c.nsubiter << "\n"
+    << "save estimates at subiteration intervals := 1\n";
+  if (start != 1 || c.par == 1)
+    f << "start at subiteration number := " << start << "\n";
+  if (c.par == 1)
+    f << "start at subset := " << c.start_subset << "\n"
+      << "relaxation parameter := " << fmt_float(c.alpha) << "\n"
+      << "relaxation gamma := " << fmt_float(c.gamma) << "\n"
+      << "upper bound := " << fmt_double(c.ub) << "\n"
+      << "write update image := " << (c.write_update ? 1 : 0) << "\n";
+  if (c.par == 1 || ep != 0)
+    f << "enforce initial positivity condition := " << ep << "\n";
+  if (c.denom_ones)
+    f << "precomputed denominator := 1\n";
+  else if (!dfile.empty())
+    f << "precomputed denominator := " << dfile << "\n";
+  f << "END :=\n";
+  return fname;
+}
+
+// `dfile`: `precomputed denominator := <file>`; `initfile`: `initial estimate` (parameter-file mode only: an image file)
 static Engine
-make_engine(const Case& c, const Built& b, int start_subiter, int ep, const std::string& prefix)
+make_engine(const Case& c, const Built& b, int start_subiter, int ep, const std::string& prefix, const std::string& dfile = "",
+            const std::string& initfile = "")
 {
   Engine e;
+  if (c.par)
+    {
+      const std::string par = write_par(c, b, start_subiter, ep, prefix, dfile, initfile);
+      e.rec.reset(new Probe);
+      e.rec->init_from_par(par); // error() throws on a file that does not parse
+      e.pl = dynamic_cast<PoissonLogLikelihoodWithLinearModelForMeanAndProjData<T>*>(e.rec->get_objective_function_sptr().get());
+      if (!e.pl)
+        throw std::runtime_error("parameter file did not produce the objective function");
+      e.qp = dynamic_cast<QuadraticPrior<float>*>(e.pl->get_prior_ptr());
+      return e;
+    }
   e.pm.reset(new ProjMatrixByBinUsingRayTracing());
   e.pm->set_restrict_to_cylindrical_FOV(c.restrict_fov);
   e.pm->set_do_symmetry_90degrees_min_phi(c.sym90);
@@ -610,6 +767,7 @@ make_engine(const Case& c, const Built& b, int start_subiter, int ep, const std:
   e.pm->set_do_symmetry_shift_z(c.symz);
   e.pp.reset(new ProjectorByBinPairUsingProjMatrixByBin(e.pm));
   e.obj.reset(new RecObj);
+  e.pl = e.obj.get();
   e.obj->set_proj_data_sptr(b.y);
   e.obj->set_projector_pair_sptr(e.pp);
   e.obj->set_use_subset_sensitivities(c.subset_sens);
@@ -622,6 +780,7 @@ make_engine(const Case& c, const Built& b, int start_subiter, int ep, const std:
   if (c.prior == 1 || c.prior == 2)
     {
       e.qprior.reset(new RecPrior(c.weights_kind == 1, c.beta, c.prior == 2));
+      e.qp = e.qprior.get();
       if (c.kappa)
         e.qprior->set_kappa_sptr(b.kappa);
       if (c.weights_kind >= 2)
@@ -637,6 +796,9 @@ make_engine(const Case& c, const Built& b, int start_subiter, int ep, const std:
   e.rec->configure(c.alpha, c.gamma, c.ub, ep);
   if (c.denom_ones)
     e.rec->use_denominator_of_ones();
+  else if (!dfile.empty())
+    e.rec->use_denominator_file(dfile);
+  e.rec->set_write_update(c.write_update ? 1 : 0);
   e.rec->set_objective_function_sptr(e.obj);
   e.rec->set_num_subsets(c.nsub);
   e.rec->set_start_subset_num(c.start_subset);
@@ -954,6 +1116,40 @@ check_saved(const Case& c, const std::string& prefix, int first_k, const std::ve
     }
 }
 
+// `write update image`: <prefix>_update_<k>.hv is written iff requested (OFF by default) and is the additive update before the clamp;
+// without inter-iteration / post filter end_of_iteration_processing hands out the image update_estimate left
+static void
+check_run_outputs(const Case& c, const std::string& prefix, const std::vector<StepRec>& steps, const std::vector<V>& finals)
+{
+  const float ubf = static_cast<float>(c.ub);
+  for (std::size_t i = 0; i < steps.size(); ++i)
+    {
+      const StepRec& r = steps[i];
+      const std::string f = prefix + "_update_" + std::to_string(r.k) + ".hv";
+      ++oracle_checks;
+      if (file_exists(f) != c.write_update)
+        ofail(std::string("update image of sub-iteration ") + std::to_string(r.k) + (c.write_update ? " was not written" : " was written although `write update image` is off"));
+      else if (c.write_update && r.have_g)
+        {
+          const V u = flat(*read_from_file<T>(f));
+          hist["update_images_checked"]++;
+          for (std::size_t j = 0; j < u.size() && j < r.after.size(); ++j)
+            if (r.after[j] > 0.F && r.after[j] < ubf
+                && !(std::fabs((static_cast<double>(r.gx[j]) + u[j]) - r.after[j]) <= 4 * std::ldexp(1., -24) * (std::fabs(r.gx[j]) + std::fabs(u[j])) + 1e-30))
+              {
+                ofail("update image of sub-iteration " + std::to_string(r.k) + " is not the additive update: voxel " + std::to_string(j));
+                break;
+              }
+        }
+      if (!c.filt && !c.postfilt && i < finals.size())
+        {
+          ++oracle_checks;
+          if (!same_bits(r.after, finals[i]))
+            ofail("no filter configured, but the iterate of sub-iteration " + std::to_string(r.k) + " differs from the image update_estimate left");
+        }
+    }
+}
+
 // with a randomised order: within every full iteration that the run covers completely the subsets used are a permutation
 static void
 check_permutations(const Case& c, const std::vector<StepRec>& steps)
@@ -979,45 +1175,41 @@ check_permutations(const Case& c, const std::vector<StepRec>& steps)
     }
 }
 
-// (always returns true: a refusal by set_up is either expected and emitted, or an oracle failure)
-static bool
-run_case(Case c, bool levelB, bool restarts, bool expect_err)
+// ---- describing a problem (configuration + data) to the model
+struct Desc
 {
-  Built b;
-  build_data(c, b);
-  Engine e = make_engine(c, b, 1, c.ep, c.prefix);
-  shared_ptr<T> t(b.img->get_empty_copy());
-  unflat(*t, b.init);
-  std::remove((c.prefix + "_precomputed_denominator.hv").c_str());
-  bool ok = false;
-  try
-    {
-      ok = e.rec->set_up(t) == Succeeded::yes;
-    }
-  catch (...)
-    {
-      ok = false;
-    }
-  {
-    std::ostringstream s;
-    s << "seed-case " << c.id;
-    g_ctx = s.str();
-  }
+  Engine q; // a matrix object of the harness' own with the same switches
+  std::map<std::pair<int, int>, int> vs_subset;
+  std::map<std::array<int, 3>, int> vg_id;
+  int nvg = 0;
+  bool balanced = true;
+  Defs defs;
+};
+
+// the harness' own projection matrix, the subset of every view/segment, whether the subsets are balanced
+static void
+describe_begin(const Case& c, const Built& b, bool build_q, Desc& D)
+{
   // ---- describe the problem to the model
   // A matrix object of our own with the same switches (the engine's own is only set up once the objective function's set_up got
   // that far): rows, symmetries, subset of every view/segment through the library's own subset assignment.
-  Engine q;
-  std::map<std::pair<int, int>, int> vs_subset;
-  std::map<std::array<int, 3>, int> vg_id; // (view, segment, tof) -> viewgram id
-  int nvg = 0;
+  Engine& q = D.q;
+  std::map<std::pair<int, int>, int>& vs_subset = D.vs_subset;
+  std::map<std::array<int, 3>, int>& vg_id = D.vg_id; // (view, segment, tof) -> viewgram id
+  int& nvg = D.nvg;
   for (int s = b.pdi->get_min_segment_num(); s <= b.pdi->get_max_segment_num(); ++s)
     for (int tof = b.pdi->get_min_tof_pos_num(); tof <= b.pdi->get_max_tof_pos_num(); ++tof)
       for (int v = b.pdi->get_min_view_num(); v <= b.pdi->get_max_view_num(); ++v)
         vg_id[{ v, s, tof }] = nvg++;
-  bool balanced = true;
-  if (ok || !expect_err)
+  bool& balanced = D.balanced;
+  balanced = true;
+  if (build_q)
     {
-      q = make_engine(c, b, 1, c.ep, c.prefix + "_q");
+      {
+        Case cq = c;
+        cq.par = 0;
+        q = make_engine(cq, b, 1, c.ep, c.prefix + "_q");
+      }
       q.pp->set_up(b.pdi, b.img);
       shared_ptr<DataSymmetriesForViewSegmentNumbers> sym(q.pp->get_symmetries_used()->clone());
       std::vector<int> count(c.nsub, 0);
@@ -1040,22 +1232,17 @@ run_case(Case c, bool levelB, bool restarts, bool expect_err)
         if (count[sub] != count[0])
           balanced = false;
     }
-  if (!ok && !expect_err && (c.subset_sens || balanced))
-    {
-      // the only legitimate refusal of a generated configuration: use_subset_sensitivities = false with unbalanced subsets
-      ++oracle_checks;
-      ofail("set_up refused a configuration the property quantifies over (subsets " + std::string(balanced ? "balanced" : "unbalanced")
-            + ", use_subset_sensitivities " + (c.subset_sens ? "on" : "off") + ")");
-      return true;
-    }
-  op(cfg_line(c, b, nvg), "ok");
-  if (!ok && expect_err)
-    {
-      // error branch: set_up refuses
-      op("setup 1 " + std::to_string(c.nsubiter) + " " + std::to_string(c.ep) + " | " + hv(b.init), "err");
-      ++n_setup_err;
-      return true;
-    }
+}
+
+// `weights`, `kappa`, `row`, `srow` lines + the property's definitions (Defs).  `prior_in_use`: the quadratic prior object of the
+// objective function after set_up, or null (then the harness' own is asked); `t`: an image of the grid.
+static void
+describe_rest(const Case& c, const Built& b, QuadraticPrior<float>* prior_in_use, const shared_ptr<T>& t, Desc& D)
+{
+  Engine& q = D.q;
+  std::map<std::pair<int, int>, int>& vs_subset = D.vs_subset;
+  std::map<std::array<int, 3>, int>& vg_id = D.vg_id;
+  const int nvg = D.nvg;
   const int nz = b.img->get_max_index() - b.img->get_min_index() + 1;
   const int minz = b.img->get_min_index();
   const int miny = (*b.img)[minz].get_min_index();
@@ -1063,8 +1250,8 @@ run_case(Case c, bool levelB, bool restarts, bool expect_err)
   if (c.prior == 1 || c.prior == 2)
     {
       // weights actually used by the prior (default ones are computed lazily: force them by one gradient evaluation)
-      RecPrior* pr = ok ? e.qprior.get() : q.qprior.get();
-      if (!ok)
+      QuadraticPrior<float>* pr = prior_in_use ? prior_in_use : static_cast<QuadraticPrior<float>*>(q.qprior.get());
+      if (!prior_in_use)
         pr->set_up(t);
       {
         shared_ptr<T> tmp(t->get_empty_copy());
@@ -1085,14 +1272,15 @@ run_case(Case c, bool levelB, bool restarts, bool expect_err)
       if (c.kappa)
         op("kappa | " + hv(flat(*b.kappa)), "ok");
     }
-  Defs defs;
+  Defs& defs = D.defs;
+  defs = Defs();
   defs.nvg = nvg;
   defs.nsub = c.nsub;
   defs.nz = nz;
   defs.ny = defs.nx = c.nxy;
   if (c.prior == 1 || c.prior == 2)
     {
-      RecPrior* pr = ok ? e.qprior.get() : q.qprior.get();
+      QuadraticPrior<float>* pr = prior_in_use ? prior_in_use : static_cast<QuadraticPrior<float>*>(q.qprior.get());
       defs.have_prior = true;
       defs.dep = c.prior == 2;
       defs.beta = c.beta;
@@ -1179,7 +1367,9 @@ run_case(Case c, bool levelB, bool restarts, bool expect_err)
   if (b.pdi->is_tof_data() && !c.tofsens)
     {
       shared_ptr<ProjDataInfo> npdi = b.pdi->create_non_tof_clone();
-      Engine qs = make_engine(c, b, 1, c.ep, c.prefix + "_qs");
+      Case cqs = c;
+      cqs.par = 0;
+      Engine qs = make_engine(cqs, b, 1, c.ep, c.prefix + "_qs");
       qs.pm->set_up(npdi, b.img);
       for (int s = npdi->get_min_segment_num(); s <= npdi->get_max_segment_num(); ++s)
         for (int v = npdi->get_min_view_num(); v <= npdi->get_max_view_num(); ++v)
@@ -1214,6 +1404,90 @@ run_case(Case c, bool levelB, bool restarts, bool expect_err)
                 }
           }
     }
+}
+
+// (always returns true: a refusal by set_up is either expected and emitted, or an oracle failure)
+static bool
+run_case(Case c, bool levelB, bool restarts, bool expect_err)
+{
+  Built b;
+  build_data(c, b);
+  shared_ptr<T> t(b.img->get_empty_copy());
+  unflat(*t, b.init);
+  {
+    std::ostringstream s;
+    s << "seed-case " << c.id;
+    g_ctx = s.str();
+  }
+  std::string initfile;
+  if (c.par)
+    {
+      write_to_file(c.prefix + "_init", *t);
+      initfile = c.prefix + "_init.hv";
+    }
+  Engine e;
+  try
+    {
+      e = make_engine(c, b, 1, c.ep, c.prefix, "", initfile);
+      if (c.par)
+        t = e.rec->initial(); // what the no-argument reconstruct() would start from
+    }
+  catch (std::exception& ex)
+    {
+      ++oracle_checks;
+      ofail(std::string("parameter file of a configuration the property quantifies over was refused: ") + ex.what());
+      return true;
+    }
+  if (c.par)
+    {
+      ++oracle_checks;
+      if (!same_bits(flat(*t), b.init))
+        ofail("`initial estimate` read back differs from the image written");
+    }
+  std::remove((c.prefix + "_precomputed_denominator.hv").c_str());
+  bool ok = false;
+  try
+    {
+      ok = e.rec->set_up(t) == Succeeded::yes;
+    }
+  catch (...)
+    {
+      ok = false;
+    }
+  Desc D;
+  describe_begin(c, b, ok || !expect_err, D);
+  const bool balanced = D.balanced;
+  const int nvg = D.nvg;
+  if (!ok && !expect_err && (c.subset_sens || balanced))
+    {
+      // the only legitimate refusal of a generated configuration: use_subset_sensitivities = false with unbalanced subsets
+      ++oracle_checks;
+      ofail("set_up refused a configuration the property quantifies over (subsets " + std::string(balanced ? "balanced" : "unbalanced")
+            + ", use_subset_sensitivities " + (c.subset_sens ? "on" : "off") + ")");
+      return true;
+    }
+  op(cfg_line(c, b, nvg), "ok");
+  if (!ok && expect_err)
+    {
+      // error branch: set_up refuses
+      op("setup 1 " + std::to_string(c.nsubiter) + " " + std::to_string(c.ep) + " | " + hv(b.init), "err");
+      ++n_setup_err;
+      return true;
+    }
+  if (c.par == 2)
+    {
+      // the OSSPS keys were not in the parameter file: what the parser left must be what the model's Params.default says
+      op("pardefaults", e.rec->parsed_line());
+      ++oracle_checks;
+      if (!e.rec->no_filters() || e.rec->parsed_write_update() != 0)
+        ofail("a parameter file that mentions no filter and no `write update image` produced an object with filters / update images");
+      hist["parameter_file_cases_with_defaults"]++;
+    }
+  else if (c.par == 1)
+    hist["parameter_file_cases_explicit"]++;
+  describe_rest(c, b, ok ? e.qp : nullptr, t, D);
+  const Defs& defs = D.defs;
+  const int nz = b.img->get_max_index() - b.img->get_min_index() + 1;
   if (!ok)
     {
       // refused because the subsets are unbalanced and subset sensitivities are switched off
@@ -1228,13 +1502,13 @@ run_case(Case c, bool levelB, bool restarts, bool expect_err)
       // accepted without subset sensitivities: the subsets must be balanced (correspondence: the model refuses otherwise)
       hist["use_subset_sensitivities_off"]++;
     }
-  const bool prior_nonzero = !e.obj->prior_is_zero();
+  const bool prior_nonzero = !e.pl->prior_is_zero();
 
   // sensitivity == 0 mask
   V sens0mask;
   {
     std::string m;
-    for (auto it = e.obj->get_sensitivity().begin_all_const(); it != e.obj->get_sensitivity().end_all_const(); ++it)
+    for (auto it = e.pl->get_sensitivity().begin_all_const(); it != e.pl->get_sensitivity().end_all_const(); ++it)
       {
         sens0mask.push_back(*it == 0 ? 1.F : 0.F);
         m += (*it == 0 ? '1' : '0');
@@ -1270,7 +1544,7 @@ run_case(Case c, bool levelB, bool restarts, bool expect_err)
     shared_ptr<T> ones(t->get_empty_copy());
     ones->fill(1.F);
     shared_ptr<T> h(t->get_empty_copy());
-    e.obj->add_multiplication_with_approximate_Hessian_without_penalty(*h, *ones);
+    e.pl->add_multiplication_with_approximate_Hessian_without_penalty(*h, *ones);
     V hvv = flat(*h);
     bool okd = hvv.size() == d0.size();
     for (std::size_t j = 0; okd && j < d0.size(); ++j)
@@ -1351,12 +1625,45 @@ run_case(Case c, bool levelB, bool restarts, bool expect_err)
     if (static_cast<int>(full.size()) != c.nsubiter || full_final.size() != full.size())
       ofail("number of sub-iterations performed " + std::to_string(full.size()) + " != " + std::to_string(c.nsubiter));
     else
-      check_saved(c, c.prefix, 1, full_final);
+      {
+        check_saved(c, c.prefix, 1, full_final);
+        check_run_outputs(c, c.prefix, full, full_final);
+      }
     if (c.randomise)
       check_permutations(c, full);
   }
   if (static_cast<int>(full.size()) != c.nsubiter || full_final.size() != full.size())
     return true;
+
+  // ---- parameter-file run: the same configuration made with the setters gives the same iterates
+  if (c.par)
+    {
+      Case cm = c;
+      cm.par = 0;
+      cm.prefix = c.prefix + "_mem";
+      Engine m = make_engine(cm, b, 1, c.ep, cm.prefix);
+      shared_ptr<T> tm(b.img->get_empty_copy());
+      unflat(*tm, b.init);
+      bool okm = false;
+      try
+        {
+          okm = m.rec->set_up(tm) == Succeeded::yes;
+          if (okm)
+            m.rec->reconstruct(tm);
+        }
+      catch (...)
+        {
+          okm = false;
+        }
+      ++oracle_checks;
+      bool equal = okm && m.rec->finals.size() == full_final.size();
+      for (std::size_t i = 0; equal && i < full_final.size(); ++i)
+        equal = same_bits(m.rec->finals[i], full_final[i]);
+      if (!equal)
+        ofail("the run configured by parameter file differs from the run configured identically through the setters");
+      else
+        hist["parameter_file_runs_equal_setter_runs"]++;
+    }
 
   // ---- a second reconstruct() on the same object WITHOUT set_up (the documented trap: D was modified);
   //      right after the uninterrupted run: the model continues with the denominator that run left
@@ -1409,7 +1716,6 @@ run_case(Case c, bool levelB, bool restarts, bool expect_err)
             continue;
           const int ep2 = variant == 1 ? 1 : 0;
           const std::string pfx2 = c.prefix + "_r" + std::to_string(k) + "v" + std::to_string(variant);
-          Engine e2 = make_engine(c, b, k + 1, ep2, pfx2);
           std::string dfile;
           V dfile_v;
           std::string fchars;
@@ -1431,10 +1737,24 @@ run_case(Case c, bool levelB, bool restarts, bool expect_err)
               shared_ptr<T> rd = read_from_file<T>(dfile);
               dfile_v = flat(*rd);
               fchars = chars_of(*rd);
-              e2.rec->use_denominator_file(dfile);
             }
-          shared_ptr<T> saved = read_from_file<T>(c.prefix + "_" + std::to_string(k) + ".hv");
-          saved->set_exam_info(*b.ei);
+          // (parameter-file mode: `start at subiteration number`, `initial estimate := <saved iterate>`, `precomputed denominator`)
+          const std::string savedfile = c.prefix + "_" + std::to_string(k) + ".hv";
+          Engine e2;
+          shared_ptr<T> saved;
+          try
+            {
+              e2 = make_engine(c, b, k + 1, ep2, pfx2, dfile, savedfile);
+              saved = c.par ? e2.rec->initial() : read_from_file<T>(savedfile);
+            }
+          catch (std::exception& ex)
+            {
+              ++oracle_checks;
+              ofail(std::string("parameter file of a resumed run was refused: ") + ex.what());
+              continue;
+            }
+          if (!c.par)
+            saved->set_exam_info(*b.ei);
           const V saved_v = flat(*saved);
           const std::string saved_chars = chars_of(*saved); // the target of this set_up is the image as read back
           bool ok2 = false;
@@ -1542,7 +1862,6 @@ run_case(Case c, bool levelB, bool restarts, bool expect_err)
       {
         const int kind = (c.id + 3 * rep) % 6;
         const std::string pfx2 = c.prefix + "_f" + std::to_string(kind);
-        Engine e2 = make_engine(c, b, 1, 0, pfx2);
         std::string dfile = pfx2 + "_denominator";
         std::string fchars = "missing";
         V dfile_v;
@@ -1573,12 +1892,14 @@ run_case(Case c, bool levelB, bool restarts, bool expect_err)
           }
         else
           dfile += "_does_not_exist.hv";
-        e2.rec->use_denominator_file(dfile);
         shared_ptr<T> t2(b.img->get_empty_copy());
         unflat(*t2, b.init);
         bool ok2 = false;
         try
           {
+            Engine e2 = make_engine(c, b, 1, 0, pfx2, dfile, initfile);
+            if (c.par)
+              t2 = e2.rec->initial();
             ok2 = e2.rec->set_up(t2) == Succeeded::yes;
           }
         catch (...)
@@ -1593,6 +1914,601 @@ run_case(Case c, bool levelB, bool restarts, bool expect_err)
       }
 
   return true;
+}
+
+// ---------------------------------------------------------------------------------------------- object re-use histories
+// ONE OSSPSReconstruction object, ONE objective function object and (unless replaced on purpose) ONE prior object go through several
+// set_up(target) -> reconstruct(target) runs; between the runs the user changes something through the public setters.
+
+// new content for parts of the data (same ProjDataInfo / ExamInfo objects)
+enum
+{
+  CH_DATA = 1,
+  CH_ADD = 2,
+  CH_NORM = 4,
+  CH_NSUB = 8,
+  CH_RELAX = 16,
+  CH_BETA = 32,
+  CH_PRIOROBJ = 64,
+  CH_INIT = 128,
+  CH_DMODE = 256,
+  CH_RESTART = 512
+};
+
+static void
+regen(const Case& c, Built& b, uint64_t seed, unsigned what)
+{
+  vh::Rng rng(seed);
+  if (what & CH_DATA)
+    {
+      b.y.reset(new ProjDataInMemory(b.ei, b.pdi));
+      const int scale_kind = rng.range(0, 2);
+      for (int s = b.pdi->get_min_segment_num(); s <= b.pdi->get_max_segment_num(); ++s)
+        for (int tof = b.pdi->get_min_tof_pos_num(); tof <= b.pdi->get_max_tof_pos_num(); ++tof)
+          for (int v = b.pdi->get_min_view_num(); v <= b.pdi->get_max_view_num(); ++v)
+            {
+              Viewgram<float> vg = b.y->get_empty_viewgram(v, s, false, tof);
+              for (auto it = vg.begin_all(); it != vg.end_all(); ++it)
+                {
+                  const int r = rng.range(0, 11);
+                  float val = r <= 2 ? 0.F : static_cast<float>(r - 2);
+                  *it = scale_kind == 1 ? val * 0.5F : (scale_kind == 2 ? val * 5.F : val);
+                }
+              b.y->set_viewgram(vg);
+            }
+    }
+  if (what & CH_ADD)
+    {
+      b.a.reset();
+      if (c.additive)
+        {
+          b.a.reset(new ProjDataInMemory(b.ei, b.pdi));
+          for (int s = b.pdi->get_min_segment_num(); s <= b.pdi->get_max_segment_num(); ++s)
+            for (int tof = b.pdi->get_min_tof_pos_num(); tof <= b.pdi->get_max_tof_pos_num(); ++tof)
+              for (int v = b.pdi->get_min_view_num(); v <= b.pdi->get_max_view_num(); ++v)
+                {
+                  Viewgram<float> va = b.a->get_empty_viewgram(v, s, false, tof);
+                  for (auto it = va.begin_all(); it != va.end_all(); ++it)
+                    *it = static_cast<float>(rng.range(1, 64)) / 16.F;
+                  b.a->set_viewgram(va);
+                }
+        }
+    }
+  if (what & CH_NORM)
+    {
+      b.normdata.reset();
+      if (c.norm)
+        {
+          shared_ptr<ProjDataInfo> npdi = b.pdi->create_non_tof_clone();
+          b.normdata.reset(new ProjDataInMemory(b.ei, npdi));
+          for (int s = npdi->get_min_segment_num(); s <= npdi->get_max_segment_num(); ++s)
+            for (int v = npdi->get_min_view_num(); v <= npdi->get_max_view_num(); ++v)
+              {
+                Viewgram<float> vn = b.normdata->get_empty_viewgram(v, s);
+                for (auto it = vn.begin_all(); it != vn.end_all(); ++it)
+                  *it = static_cast<float>(rng.range(4, 24)) / 8.F;
+                b.normdata->set_viewgram(vn);
+              }
+        }
+    }
+  if (what & CH_INIT)
+    {
+      shared_ptr<T> t(b.img->get_empty_copy());
+      for (auto it = t->begin_all(); it != t->end_all(); ++it)
+        *it = rng.range(0, 15) == 0 ? 0.F : static_cast<float>(rng.range(1, 96)) / 32.F;
+      b.init = flat(*t);
+    }
+  if (what & CH_PRIOROBJ)
+    {
+      b.kappa.reset();
+      if (c.kappa)
+        {
+          b.kappa.reset(b.img->get_empty_copy());
+          for (auto it = b.kappa->begin_all(); it != b.kappa->end_all(); ++it)
+            *it = static_cast<float>(rng.range(2, 24)) / 8.F;
+        }
+      if (c.weights_kind >= 2)
+        {
+          const int mz = c.weights_kind == 2 ? -1 : 0;
+          b.weights = Array<3, float>(IndexRange3D(mz, -mz, -1, 1, -1, 1));
+          for (int dz = mz; dz <= -mz; ++dz)
+            for (int dy = -1; dy <= 1; ++dy)
+              for (int dx = -1; dx <= 1; ++dx)
+                b.weights[dz][dy][dx] = (dz == 0 && dy == 0 && dx == 0) ? 0.F : static_cast<float>(rng.range(0, 8)) / 8.F;
+          for (int dz = mz; dz <= -mz; ++dz)
+            for (int dy = -1; dy <= 1; ++dy)
+              for (int dx = -1; dx <= 1; ++dx)
+                b.weights[-dz][-dy][-dx] = b.weights[dz][dy][dx];
+        }
+    }
+}
+
+static const float h_alphas[] = { 1.F, 0.5F, 1.75F, 2.F, 0.75F };
+static const float h_gammas[] = { 0.1F, 0.F, 0.5F, 1.F, 0.25F };
+static const double h_ubs[] = { static_cast<double>(std::numeric_limits<float>::max()), 1.5, 3., 0.75, 8. };
+
+static long n_hist = 0, n_hist_runs = 0, n_hist_equal_fresh = 0;
+
+// kind 0: the same configuration and start image again and again;
+// kind 1: every run changes something (data, additive term, normalisation, subsets, relaxation, prior factor / object, start image,
+//         `precomputed denominator` mode, restart from a saved iterate of the previous run);
+// kind 2: an interrupted run continued by re-using the object (start_subiteration_num = k+1, start image = saved iterate k or the
+//         image object of the previous run itself), compared with the uninterrupted run of a fresh object.
+static void
+run_history(Case c0, int kind, int nruns)
+{
+  vh::Rng hr(c0.data_seed * 6364136223846793005ULL + 1442695040888963407ULL + static_cast<uint64_t>(kind));
+  c0.randomise = false; // (the random order is seeded from the clock by set_up)
+  if (kind == 2)
+    {
+      c0.ep = 0;
+      c0.postfilt = 0;
+      if (c0.filt == 2)
+        c0.filt = 1;
+    }
+  Built b;
+  build_data(c0, b);
+  const int V_ = c0.ndet / 2;
+  std::vector<int> legal_nsub;
+  for (int ns = 1; ns <= V_; ++ns)
+    {
+      bool legal = c0.subset_sens;
+      if (!legal)
+        {
+          // without subset sensitivities STIR insists on balanced subsets
+          Case cc = c0;
+          cc.nsub = ns;
+          cc.start_subset = 0;
+          Desc d;
+          describe_begin(cc, b, true, d);
+          legal = d.balanced;
+        }
+      if (legal)
+        legal_nsub.push_back(ns);
+    }
+  if (std::find(legal_nsub.begin(), legal_nsub.end(), c0.nsub) == legal_nsub.end())
+    {
+      c0.nsub = legal_nsub[hr.range(0, static_cast<int>(legal_nsub.size()) - 1)];
+      c0.start_subset = hr.range(0, c0.nsub - 1);
+    }
+  const std::string hp = c0.prefix;
+  ++n_hist;
+  hist[std::string("histories_kind") + std::to_string(kind)]++;
+
+  // kind 2: the uninterrupted run, fresh object
+  const int total = kind == 2 ? std::max(3, c0.nsubiter) : 0;
+  std::vector<V> uninterrupted;
+  if (kind == 2)
+    {
+      Case cu = c0;
+      cu.par = 0;
+      cu.nsubiter = total;
+      Engine u = make_engine(cu, b, 1, 0, hp + "_hfull");
+      shared_ptr<T> tu(b.img->get_empty_copy());
+      unflat(*tu, b.init);
+      bool oku = false;
+      try
+        {
+          oku = u.rec->set_up(tu) == Succeeded::yes;
+          if (oku)
+            u.rec->reconstruct(tu);
+        }
+      catch (...)
+        {
+          oku = false;
+        }
+      ++oracle_checks;
+      if (!oku)
+        {
+          ofail("set_up refused a configuration the property quantifies over (uninterrupted run of a history)");
+          return;
+        }
+      uninterrupted = u.rec->finals;
+    }
+
+  Engine e;
+  Case c = c0;
+  shared_ptr<T> t_prev;
+  std::string prev_prefix;
+  int prev_start = 1, prev_last = 0;
+  std::string valid_d0file; // written by an earlier set_up of this object for the data part (y, normalisation) still current
+  std::string any_d0file;
+  for (int r = 0; r < nruns; ++r)
+    {
+      const std::string pfx = hp + "_h" + std::to_string(r);
+      std::ostringstream ctx;
+      ctx << "seed-case " << c0.id << " history kind " << kind << " run " << r;
+      g_ctx = ctx.str();
+      unsigned changed = 0;
+      int start = 1, last = c.nsubiter;
+      int init_kind = 0, init_k = 0; // 0: b.init; 1: saved iterate init_k of the previous run (file); 2: the previous run's image object
+      int dmode = c.denom_ones ? 1 : 0;
+      std::string dfile;
+      if (kind == 2)
+        {
+          if (r == 0)
+            last = hr.range(1, total - 1);
+          else
+            {
+              if (prev_last >= total)
+                break;
+              init_k = hr.range(prev_start, prev_last);
+              init_kind = (init_k == prev_last && hr.coin()) ? 2 : 1;
+              start = init_k + 1;
+              last = r == nruns - 1 ? total : hr.range(start, total);
+            }
+          c.nsubiter = last;
+        }
+      else if (kind == 1 && r > 0)
+        {
+          while (changed == 0)
+            for (unsigned bit = 1; bit <= CH_RESTART; bit <<= 1)
+              if (hr.range(0, 3) == 0)
+                changed |= bit;
+          if (c.par)
+            changed &= ~static_cast<unsigned>(CH_PRIOROBJ); // (keep the parsed prior object)
+          if (c.prior == 0 || c.prior == 3)
+            changed &= ~static_cast<unsigned>(CH_BETA);
+          if (changed == 0)
+            changed = CH_DATA;
+          if (changed & CH_ADD)
+            c.additive = c.additive ? hr.coin() : true;
+          if (changed & CH_NORM)
+            c.norm = c.norm ? hr.coin() : true;
+          if (changed & CH_NSUB)
+            {
+              c.nsub = legal_nsub[hr.range(0, static_cast<int>(legal_nsub.size()) - 1)];
+              c.start_subset = hr.range(0, c.nsub - 1);
+            }
+          if (changed & CH_RELAX)
+            {
+              c.alpha = h_alphas[hr.range(0, 4)];
+              c.gamma = h_gammas[hr.range(0, 4)];
+              c.ub = h_ubs[hr.range(0, 4)];
+            }
+          if (changed & CH_BETA)
+            c.beta = hr.range(0, 5) == 0 ? 0.F : static_cast<float>(hr.range(1, 48)) / 16.F;
+          if (changed & CH_PRIOROBJ)
+            {
+              const int pk = hr.range(0, 5);
+              c.prior = pk == 0 ? 0 : (pk <= 3 ? 1 : 2);
+              c.beta = c.prior ? static_cast<float>(hr.range(1, 40)) / 16.F : 0.F;
+              c.kappa = c.prior && hr.coin();
+              c.weights_kind = c.prior ? hr.range(0, 3) : 0;
+            }
+          regen(c, b, hr.next(), changed & (CH_DATA | CH_ADD | CH_NORM | CH_INIT | CH_PRIOROBJ));
+          if (changed & (CH_DATA | CH_NORM))
+            valid_d0file.clear();
+          if (changed & CH_DMODE)
+            {
+              dmode = hr.range(0, 3);
+              if (dmode == 2 && valid_d0file.empty())
+                dmode = any_d0file.empty() ? 0 : 3;
+              if (dmode == 3 && any_d0file.empty())
+                dmode = 1;
+            }
+          else if (dmode != 1)
+            dmode = 0;
+          c.denom_ones = dmode == 1;
+          if ((changed & CH_RESTART) && prev_last >= 1)
+            {
+              init_k = hr.range(prev_start, prev_last);
+              init_kind = 1;
+              start = init_k + 1;
+              last = start + hr.range(0, 2);
+            }
+          else
+            last = hr.range(2, 4);
+          c.nsubiter = last;
+        }
+      if (dmode == 2)
+        dfile = valid_d0file;
+      else if (dmode == 3)
+        {
+          // a user supplied denominator: 2 * (a denominator file written earlier) + 1
+          shared_ptr<T> du = read_from_file<T>(any_d0file);
+          for (auto it = du->begin_all(); it != du->end_all(); ++it)
+            *it = 2.F * *it + 1.F;
+          dfile = pfx + "_userdenominator";
+          write_to_file(dfile, *du);
+          dfile += ".hv";
+        }
+      c.prefix = pfx;
+
+      // ---- the start image
+      shared_ptr<T> t;
+      std::string initfile;
+      if (init_kind == 0)
+        {
+          t.reset(b.img->get_empty_copy());
+          unflat(*t, b.init);
+        }
+      else if (init_kind == 1)
+        {
+          initfile = prev_prefix + "_" + std::to_string(init_k) + ".hv";
+          t = read_from_file<T>(initfile);
+          t->set_exam_info(*b.ei);
+        }
+      else
+        t = t_prev;
+      const V init_v = flat(*t);
+      const std::string init_chars = chars_of(*t);
+
+      // ---- configure the ONE object
+      try
+        {
+          if (r == 0)
+            {
+              if (c.par)
+                {
+                  write_to_file(pfx + "_init", *t);
+                  initfile = pfx + "_init.hv";
+                }
+              e = make_engine(c, b, start, c.ep, pfx, dfile, initfile);
+              if (c.par)
+                t = e.rec->initial();
+            }
+          else
+            {
+              if (changed & CH_DATA)
+                e.pl->set_proj_data_sptr(b.y);
+              if (changed & CH_ADD)
+                e.pl->set_additive_proj_data_sptr(c.additive ? shared_ptr<ExamData>(b.a) : shared_ptr<ExamData>());
+              if (changed & CH_NORM)
+                e.pl->set_normalisation_sptr(c.norm ? shared_ptr<BinNormalisation>(new BinNormalisationFromProjData(b.normdata))
+                                                    : shared_ptr<BinNormalisation>(new TrivialBinNormalisation));
+              if (changed & CH_NSUB)
+                {
+                  e.rec->set_num_subsets(c.nsub);
+                  e.rec->set_start_subset_num(c.start_subset);
+                }
+              if (changed & CH_RELAX)
+                e.rec->configure(c.alpha, c.gamma, c.ub, c.ep);
+              if (changed & CH_PRIOROBJ)
+                {
+                  e.qprior.reset();
+                  e.qp = nullptr;
+                  if (c.prior == 1 || c.prior == 2)
+                    {
+                      e.qprior.reset(new RecPrior(c.weights_kind == 1, c.beta, c.prior == 2));
+                      e.qp = e.qprior.get();
+                      if (c.kappa)
+                        e.qprior->set_kappa_sptr(b.kappa);
+                      if (c.weights_kind >= 2)
+                        e.qprior->set_weights(b.weights);
+                    }
+                  e.pl->set_prior_sptr(e.qprior);
+                }
+              else if (changed & CH_BETA)
+                e.qp->set_penalisation_factor(c.beta);
+              e.rec->set_num_subiterations(last);
+              e.rec->set_start_subiteration_num(start);
+              e.rec->set_output_filename_prefix(pfx);
+              if (dmode == 0)
+                e.rec->use_denominator_computed();
+              else if (dmode == 1)
+                e.rec->use_denominator_of_ones();
+              else
+                e.rec->use_denominator_file(dfile);
+            }
+        }
+      catch (std::exception& ex)
+        {
+          ++oracle_checks;
+          ofail(std::string("configuring the object threw: ") + ex.what());
+          return;
+        }
+      e.rec->steps.clear();
+      e.rec->finals.clear();
+      const std::string d0file = pfx + "_precomputed_denominator.hv";
+      std::remove(d0file.c_str());
+      Desc D;
+      describe_begin(c, b, true, D);
+      bool ok = false;
+      try
+        {
+          ok = e.rec->set_up(t) == Succeeded::yes;
+        }
+      catch (...)
+        {}
+      if (!ok)
+        {
+          if (!c.subset_sens && !D.balanced)
+            hist["history_refused_unbalanced"]++;
+          else
+            {
+              ++oracle_checks;
+              ofail("set_up of the re-used object refused a configuration the property quantifies over");
+            }
+          return;
+        }
+      op(std::string(r == 0 ? "cfg" : "recfg") + cfg_line(c, b, D.nvg).substr(3), "ok");
+      describe_rest(c, b, e.qp, t, D);
+      const Defs& defs = D.defs;
+      const bool prior_nonzero = !e.pl->prior_is_zero();
+      V sens0mask;
+      {
+        std::string m;
+        for (auto it = e.pl->get_sensitivity().begin_all_const(); it != e.pl->get_sensitivity().end_all_const(); ++it)
+          {
+            sens0mask.push_back(*it == 0 ? 1.F : 0.F);
+            m += (*it == 0 ? '1' : '0');
+          }
+        op("sens0", m);
+      }
+      // ---- the denominator set_up left
+      const std::string word = r == 0 ? "setup" : "resetup";
+      const std::string head = " " + std::to_string(start) + " " + std::to_string(last) + " " + std::to_string(c.ep) + " | " + hv(init_v);
+      V d0;
+      if (dmode == 1)
+        {
+          d0.assign(init_v.size(), 1.F);
+          op(word + head, "ok | " + hv(flat(*t)) + " | unobserved");
+        }
+      else if (dmode >= 2)
+        {
+          shared_ptr<T> rd = read_from_file<T>(dfile);
+          d0 = flat(*rd);
+          op(word + "f" + head + " | " + init_chars + " | " + chars_of(*rd) + " | " + hv(d0), "ok | " + hv(flat(*t)) + " | unobserved");
+          ++oracle_checks;
+          if (file_exists(d0file))
+            ofail("a denominator was precomputed although `precomputed denominator` names a file");
+          hist[dmode == 2 ? "history_runs_with_saved_denominator_file" : "history_runs_with_user_denominator_file"]++;
+        }
+      else
+        {
+          // what the property says D0 is for the CURRENT data, through the public API of the objective function
+          shared_ptr<T> ones(t->get_empty_copy());
+          ones->fill(1.F);
+          shared_ptr<T> h(t->get_empty_copy());
+          e.pl->add_multiplication_with_approximate_Hessian_without_penalty(*h, *ones);
+          V api = flat(*h);
+          for (auto& x : api)
+            x = -x;
+          ++oracle_checks;
+          if (!file_exists(d0file))
+            {
+              ofail("set_up of the re-used object did not recompute (write) the precomputed denominator");
+              d0 = api;
+            }
+          else
+            {
+              d0 = flat(*read_from_file<T>(d0file));
+              if (!same_bits(d0, api))
+                ofail("precomputed denominator written by set_up of the re-used object is not minus the approximate Hessian of the "
+                      "current objective function on the uniform image");
+              valid_d0file = d0file;
+              any_d0file = d0file;
+            }
+          op(word + head, "ok | " + hv(flat(*t)) + " | " + hv(d0));
+          op("d0sync | " + hv(d0), "ok");
+          ++oracle_checks;
+          {
+            std::vector<double> dd;
+            defs.d0(d0.size(), dd);
+            for (std::size_t j = 0; j < d0.size(); ++j)
+              if (!(std::fabs(dd[j] - d0[j]) <= 1e-4 * std::fabs(dd[j]) + 1e-30))
+                {
+                  ofail("re-used object: data part of the denominator of voxel " + std::to_string(j)
+                        + " is not sum_b P_bj (P 1)_b / (n_b^2 y_b) for the current data: got " + vh::hex(d0[j]) + " definition " + vh::hex(dd[j]));
+                  break;
+                }
+          }
+        }
+      // ---- the run
+      try
+        {
+          e.rec->reconstruct(t);
+        }
+      catch (std::exception& ex)
+        {
+          ++oracle_checks;
+          ofail(std::string("reconstruct of the re-used object threw: ") + ex.what());
+          return;
+        }
+      const std::vector<StepRec> steps = e.rec->steps;
+      const std::vector<V> finals = e.rec->finals;
+      {
+        RunState rs;
+        for (std::size_t i = 0; i < steps.size(); ++i)
+          {
+            emit_step(c, steps[i], d0, start, true, prior_nonzero, rs, sens0mask, defs, i < finals.size() ? &finals[i] : nullptr);
+            ++n_steps;
+          }
+        op("endrun", std::to_string(steps.size()));
+        ++oracle_checks;
+        if (static_cast<int>(steps.size()) != last - start + 1 || finals.size() != steps.size())
+          {
+            ofail("re-used object: number of sub-iterations performed " + std::to_string(steps.size()) + " != " + std::to_string(last - start + 1));
+            return;
+          }
+        check_saved(c, pfx, start, finals);
+        check_run_outputs(c, pfx, steps, finals);
+      }
+      ++n_hist_runs;
+      hist["history_runs"]++;
+      for (unsigned bit = 1; bit <= CH_RESTART; bit <<= 1)
+        if (changed & bit)
+          hist["history_change_" + std::to_string(bit)]++;
+
+      // ---- a FRESH object (objective function, prior, reconstruction) configured identically
+      {
+        Case cf = c;
+        cf.par = 0;
+        cf.prefix = pfx + "_fresh";
+        Engine f = make_engine(cf, b, start, c.ep, cf.prefix, dfile);
+        shared_ptr<T> tf;
+        if (init_kind == 1)
+          {
+            tf = read_from_file<T>(initfile);
+            tf->set_exam_info(*b.ei);
+          }
+        else
+          {
+            tf.reset(b.img->get_empty_copy());
+            unflat(*tf, init_v);
+          }
+        bool okf = false;
+        try
+          {
+            okf = f.rec->set_up(tf) == Succeeded::yes;
+            if (okf)
+              f.rec->reconstruct(tf);
+          }
+        catch (...)
+          {
+            okf = false;
+          }
+        ++oracle_checks;
+        if (!okf)
+          ofail("a fresh object refused the configuration the re-used object accepted");
+        else
+          {
+            bool equal = f.rec->finals.size() == finals.size() && f.rec->steps.size() == steps.size();
+            int first_diff = -1;
+            for (std::size_t i = 0; equal && i < finals.size(); ++i)
+              if (!same_bits(f.rec->finals[i], finals[i]) || !same_bits(f.rec->steps[i].after, steps[i].after))
+                {
+                  equal = false;
+                  first_diff = steps[i].k;
+                }
+            if (equal)
+              ++n_hist_equal_fresh;
+            else
+              ofail("run " + std::to_string(r) + " of the re-used object differs from a fresh object configured identically (first differing "
+                    "sub-iteration " + std::to_string(first_diff) + ")");
+            if (dmode == 0 && file_exists(d0file) && file_exists(cf.prefix + "_precomputed_denominator.hv"))
+              {
+                ++oracle_checks;
+                if (!same_bits(flat(*read_from_file<T>(d0file)), flat(*read_from_file<T>(cf.prefix + "_precomputed_denominator.hv"))))
+                  ofail("run " + std::to_string(r) + ": the precomputed denominator of the re-used object differs from the one of a fresh object");
+              }
+          }
+      }
+      // ---- kind 2: the continuation reproduces the uninterrupted run
+      if (kind == 2)
+        {
+          ++oracle_checks;
+          bool equal = true;
+          int first_diff = -1;
+          for (std::size_t i = 0; equal && i < finals.size(); ++i)
+            if (start - 1 + static_cast<int>(i) >= static_cast<int>(uninterrupted.size())
+                || !same_bits(finals[i], uninterrupted[start - 1 + i]))
+              {
+                equal = false;
+                first_diff = start + static_cast<int>(i);
+              }
+          if (equal)
+            hist["history_resume_by_reuse_equal"]++;
+          else
+            ofail("run continued by re-using the object differs from the uninterrupted run at sub-iteration " + std::to_string(first_diff)
+                  + " (resumed after " + std::to_string(start - 1) + ")");
+        }
+      t_prev = t;
+      prev_prefix = pfx;
+      prev_start = start;
+      prev_last = last;
+    }
 }
 
 int
@@ -1631,6 +2547,8 @@ main(int argc, char** argv)
   }
   const int ngeoms = thorough ? 40 : 6;
   int id = 0;
+  std::vector<Case> geoms;
+  g_dir = dir;
   // ---- a fixed small case (independent of the seed): 8 detectors x 2 rings, 5x5x3 image of 40 mm voxels whose corners lie
   //      outside the cylindrical FOV (zero sensitivity), 2 subsets, gamma = 0.5, quadratic prior beta = 1, default everything else.
   //      It is the minimal reproduction of the two known candidates (relaxation off by one sub-iteration; resume with prior and
@@ -1696,6 +2614,7 @@ main(int argc, char** argv)
           g.tofbins = rng.coin() ? 5 : 9;
           g.tofmash = g.tofbins == 9 ? 3 : 1;
         }
+      geoms.push_back(g);
       const int V_ = g.ndet / 2;
       // every number of subsets that STIR accepts for this geometry
       for (int ns = 1; ns <= V_; ++ns)
@@ -1772,6 +2691,130 @@ main(int argc, char** argv)
             }
         }
     }
+  // ---- object re-use histories and parameter files (a random stream of their own: the cases above do not depend on them)
+  {
+    vh::Rng hrng(seed * 2862933555777941757ULL + 3037000493ULL);
+    auto config = [&](const Case& g, bool for_par) {
+      Case c = g;
+      c.id = ++id;
+      const int V_ = c.ndet / 2;
+      c.subset_sens = hrng.range(0, 2) != 0;
+      std::vector<int> legal;
+      for (int ns = 1; ns <= V_; ++ns)
+        if (c.subset_sens || V_ % ns == 0)
+          legal.push_back(ns);
+      c.nsub = legal[hrng.range(0, static_cast<int>(legal.size()) - 1)];
+      c.start_subset = hrng.range(0, c.nsub - 1);
+      c.nsubiter = hrng.range(2, 4);
+      c.alpha = h_alphas[hrng.range(0, 4)];
+      c.gamma = h_gammas[hrng.range(0, 4)];
+      c.ub = h_ubs[hrng.range(0, 4)];
+      c.ep = hrng.range(0, 4) == 0;
+      const int pk = hrng.range(0, 7);
+      c.prior = pk <= 1 ? 0 : (pk <= 6 ? 1 : 2);
+      c.beta = c.prior ? static_cast<float>(hrng.range(1, 40)) / 16.F : 0.F;
+      c.kappa = c.prior && hrng.coin();
+      c.weights_kind = c.prior ? hrng.range(0, 3) : 0;
+      c.additive = hrng.coin();
+      c.denom_ones = hrng.range(0, 9) == 0;
+      c.norm = hrng.coin();
+      c.zero_ends = hrng.range(0, 3) == 0;
+      c.tofsens = c.tofbins > 0 && hrng.coin();
+      if (hrng.range(0, 5) == 0)
+        {
+          c.filt = 1;
+          c.filt_interval = hrng.range(1, 2);
+        }
+      if (for_par)
+        {
+          // what a parameter file can say (no test doubles, no TOF switch without setter)
+          c.tofbins = 0;
+          c.tofmash = 1;
+          c.tofsens = false;
+          if (c.prior == 2)
+            c.prior = 1;
+          if (c.weights_kind >= 2)
+            c.weights_kind = hrng.range(0, 1);
+          c.filt = c.postfilt = 0;
+          c.filt_interval = 0;
+        }
+      c.data_seed = hrng.next();
+      c.prefix = dir + "/c" + std::to_string(c.id);
+      return c;
+    };
+    const int nh = static_cast<int>(geoms.size());
+    for (int gi = 0; gi < nh; ++gi)
+      for (int kind = 0; kind <= 2; ++kind)
+        {
+          Case c = config(geoms[gi], false);
+          int nruns = kind == 0 ? 2 + (gi % 2) : (kind == 1 ? 3 - (gi % 2) : 2 + hrng.range(0, 1));
+          if (gi == 0 && kind == 0)
+            {
+              // whatever the seed: three runs of the same configuration with a quadratic prior (the curvature must enter D once)
+              c.prior = 1;
+              c.beta = 1.5F;
+              c.denom_ones = false;
+              nruns = 3;
+            }
+          if (gi == 1 && kind == 1)
+            c.prior = 1, c.beta = 0.75F, nruns = 3;
+          if (gi == 1 && kind == 2)
+            c.prior = 1, c.beta = 2.F, c.denom_ones = false, nruns = 3;
+          if (gi == 2 && kind == 2)
+            c.prior = 0, c.beta = 0.F;
+          if (gi == 3 && kind == 0)
+            c.prior = 1, c.beta = 1.F, c.denom_ones = true; // `precomputed denominator := 1` again and again, with a prior
+          run_history(c, kind, nruns);
+        }
+    // ---- the users' path: parameter file -> parse -> set_up -> reconstruct, one configuration per run kind
+    //      (uninterrupted run, second reconstruct() without set_up, resumed runs by parameter file with `start at subiteration
+    //      number`, `initial estimate := <saved iterate>`, `precomputed denominator := <file>`, refused denominator files; histories)
+    for (int pk = 0; pk < (thorough ? 8 : 3); ++pk)
+      {
+        Case c = config(geoms[pk % nh], true);
+        c.par = pk % 2 == 0 ? 2 : 1;
+        if (c.par == 2)
+          {
+            // everything OSSPS specific left to the parser's defaults
+            c.alpha = 1.F;
+            c.gamma = 0.1F;
+            c.ub = static_cast<double>(std::numeric_limits<float>::max());
+            c.ep = 0;
+            c.start_subset = 0;
+            c.denom_ones = false;
+            if (pk == 0)
+              c.prior = 0, c.beta = 0.F, c.kappa = false, c.nsub = 2, c.nsubiter = 4, c.subset_sens = true;
+          }
+        else
+          {
+            c.write_update = true;
+            if (pk == 1)
+              c.prior = 1, c.beta = 1.25F, c.denom_ones = false;
+          }
+        while (pk < 2 && c.id % 3 != 0) // (the second reconstruct() without set_up is run for id % 3 == 0)
+          c.id = ++id, c.prefix = dir + "/c" + std::to_string(c.id);
+        run_case(c, true, true, false);
+        hist["parameter_file_cases"]++;
+      }
+    for (int pk = 0; pk < (thorough ? 6 : 2); ++pk)
+      {
+        Case c = config(geoms[(pk + 1) % nh], true);
+        c.par = pk % 2 == 0 ? 1 : 2;
+        if (c.par == 2)
+          {
+            c.alpha = 1.F;
+            c.gamma = 0.1F;
+            c.ub = static_cast<double>(std::numeric_limits<float>::max());
+            c.ep = 0;
+            c.start_subset = 0;
+          }
+        if (pk == 0)
+          c.prior = 1, c.beta = 1.F, c.denom_ones = false;
+        run_history(c, pk % 2 == 0 ? 0 : 1, pk % 2 == 0 ? 2 : 3);
+        hist["parameter_file_histories"]++;
+      }
+  }
+
   // ---- malformed stream: configurations set_up must refuse
   for (int m = 0; m < 4; ++m)
     {
@@ -1801,8 +2844,9 @@ main(int argc, char** argv)
       run_case(c, false, false, true);
     }
 
-  std::fprintf(orc, "INFO cases=%ld steps=%ld resumes=%ld resumes_bitwise_equal=%ld setup_refused=%ld", n_cases, n_steps, n_restarts,
-               n_restart_equal, n_setup_err);
+  std::fprintf(orc, "INFO cases=%ld steps=%ld resumes=%ld resumes_bitwise_equal=%ld setup_refused=%ld histories=%ld history_runs_compared=%ld "
+                    "history_runs_equal_fresh_object=%ld",
+               n_cases, n_steps, n_restarts, n_restart_equal, n_setup_err, n_hist, n_hist_runs, n_hist_equal_fresh);
   for (auto& kv : hist)
     std::fprintf(orc, " %s=%ld", kv.first.c_str(), kv.second);
   std::fprintf(orc, "\n");
